@@ -213,9 +213,12 @@ B0_Start == \E fs \in FailSets : B0_With(fs)
 (***************************************************************************)
 (* Continuous operation: R5 next time, R6 arm, R7 select, R8 allowed.      *)
 (***************************************************************************)
+\* the policy's deadline is relative to now (dt) or absolute (abs: "every day at 03:00" - the same timing again and again)
 TimingOf(a, c) ==
-  [time |-> [w |-> IF a.kind \in {"wall", "both"} THEN Some([s |-> c.w + a.dt, ns |-> 123456789]) ELSE None,
-             m |-> IF a.kind \in {"mono", "both"} THEN Some([s |-> c.m + a.dt, ns |-> 0]) ELSE None],
+  LET tw == IF Has(a, "abs") /\ IsSome(a.abs) THEN a.abs[1] ELSE c.w + a.dt
+      tm == IF Has(a, "abs") /\ IsSome(a.abs) THEN a.abs[1] ELSE c.m + a.dt IN
+  [time |-> [w |-> IF a.kind \in {"wall", "both"} THEN Some([s |-> tw, ns |-> 123456789]) ELSE None,
+             m |-> IF a.kind \in {"mono", "both"} THEN Some([s |-> tm, ns |-> 0]) ELSE None],
    minwait |-> IF "mwms" \in DOMAIN a /\ IsSome(a.mwms)
                  THEN Some([s |-> a.mwms[1] \div 1000, ns |-> (a.mwms[1] % 1000) * 1000000])
                ELSE IF IsSome(a.minwait) THEN Some([s |-> a.minwait[1], ns |-> 0]) ELSE None]
